@@ -264,6 +264,19 @@ def gen_c09(rnd, n, thorough=False):
             pat = rnd.pick(['*/*.wsp', '*/a.wsp', 'q/*.wsp'])
             gl.append("clidiff src=g:%s dest=h: from=0 until=0 archive=-1 spell=%d" % (pat, rnd.pick([0, 1, 2, 3, 4])))
             cases.append({'id': 'c09-%d-glob' % c, 'lines': gl, 'tags': {'layout': lname, 'pair': 'glob', 'window': 'default'}})
+        if c == 3:
+            # a glob run over files that are being written: while the first pair is compared (its
+            # destination is kept locked for two clock seconds) the destination of a later pair receives a
+            # point; the default window of that later pair ends at ITS clock, so the new slot is compared
+            l2 = CLI_LAYOUTS[rnd.pick(['two_1s', 'three_1s', 'single'])]
+            gl = []
+            for nm in ('y/a.wsp', 'y/b.wsp'):
+                f = fill_ops(rnd, 'g/' + nm, l2, m, xff, density=0.5, inconsistent=False)
+                gl += f + copy_of(f, 'g/' + nm, 'h/' + nm)
+            side = rnd.pick(['g', 'h'])
+            gl.append("clidiff src=g:y/*.wsp dest=h: from=0 until=0 archive=-1 live=%s/y/b.wsp hold=h/y/a.wsp" % side)
+            gl.append("clidiff src=g:y/*.wsp dest=h: from=0 until=0 archive=-1")
+            cases.append({'id': 'c09-%d-live' % c, 'lines': gl, 'tags': {'layout': 'live', 'pair': 'glob_live', 'window': 'default'}})
     return cases
 
 
@@ -290,7 +303,7 @@ def gen_c10(rnd, n, thorough=False):
         m, xff = rnd.pick(METHODS), 0x3f000000
         nfiles = rnd.pick([1, 2, 3, 3, 5, 12 if thorough else 6])
         items = rnd.pick([['i1'], ['i1', 'i2'], ['a.b']])
-        kind = rnd.pick(['plain', 'plain', 'holes', 'all_nan_column', 'odd_last', 'odd_first', 'odd_middle', 'nomatch_item', 'nomatch_file', 'order', 'one_unreadable'])
+        kind = rnd.pick(['plain', 'plain', 'holes', 'all_nan_column', 'odd_last', 'odd_first', 'odd_middle', 'nomatch_item', 'nomatch_file', 'order', 'one_unreadable', 'first_fresh'])
         odd = None
         if kind.startswith('odd') and nfiles >= 2:
             idx = {'odd_last': nfiles - 1, 'odd_first': 0, 'odd_middle': nfiles // 2}[kind]
@@ -301,6 +314,10 @@ def gen_c10(rnd, n, thorough=False):
             d = 's/%s' % items[0].replace('.', '/')
             for j, v in enumerate([1e16, -1e16, 1.0]):
                 lines += ["open %s/f%d.wsp" % (d, j), "many %s/f%d.wsp 0 @ 1 @-%d %016x" % (d, j, layout[0][0], fbits(v)), "sync %s/f%d.wsp" % (d, j), "drop %s/f%d.wsp" % (d, j)]
+        if kind == 'first_fresh':
+            # the first file in glob order was never written: its all-NaN series is where the sum starts
+            d = 's/%s' % items[0].replace('.', '/')
+            lines += ["create %s/a0.wsp %s m %d x %08x" % (d, fmt_layout(layout), m, xff), "sync %s/a0.wsp" % d, "drop %s/a0.wsp" % d]
         if kind == 'one_unreadable':
             lines += ["create s/%s/f9.wsp %s m %d x %08x" % (items[0].replace('.', '/'), fmt_layout(layout), m, xff), "drop s/%s/f9.wsp" % items[0].replace('.', '/')]
         wk, frm, until = window(rnd, layout)
@@ -315,6 +332,12 @@ def gen_c10(rnd, n, thorough=False):
         elif rnd.chance(0.3):
             hold = ' remote=1'         # the files summed by a server (the same sum)
         lines.append("clisum base=s item=%s src=%s from=%s until=%s archive=%d header=%d%s spell=%d" % (itempat, srcpat, frm, until, arch, rnd.pick([0, 1]), hold, rnd.pick([0, 0, 1, 2, 3, 4])))
+        if kind == 'first_fresh':
+            srcpat = '*.wsp'
+            lines[-1] = "clisum base=s item=%s src=*.wsp from=%s until=%s archive=%d header=1" % (itempat, frm, until, arch)
+            # the same sum again (a sum leaves nothing behind), and the never-written file read alone
+            lines.append(lines[-1])
+            lines.append("cliview src=s:%s/a0.wsp from=%s until=%s archive=%d header=0" % (items[0].replace('.', '/'), frm, until, arch))
         cases.append({'id': 'c10-%d' % c, 'lines': lines, 'tags': {'layout': lname, 'kind': kind, 'files': nfiles, 'window': wk, 'remote': int('remote' in hold)}})
         if c == 1:
             cases.append(many_files_case(rnd, 'c10-%d-many' % c, ['sum']))
@@ -413,7 +436,7 @@ def gen_c18(rnd, n, thorough=False):
             lines = ["create s/a.wsp 1 1 %d m %d x 00000000" % (N, rnd.pick(METHODS)),
                      "many s/a.wsp 0 @ %d %s" % (len(offs), " ".join("@-%d %016x" % (o, cvalue(rnd)) for o in offs)),
                      "sync s/a.wsp", "drop s/a.wsp",
-                     "cliviewraw src=s:a.wsp from=0 until=0 archive=0 header=0 sort=%d" % rnd.pick([0, 1]),
+                     "cliviewraw src=s:a.wsp from=0 until=0 archive=0 header=0 sort=%d" % (rnd.pick([0, 1]) if thorough else 0),   # (the model's insertion sort of 70 000 points takes half a minute)
                      "cliview src=s:a.wsp from=0 until=0 archive=0 header=1"]
             cases.append({'id': 'c18-%d' % c, 'lines': lines, 'tags': {'layout': 'big%d' % N}})
             continue
@@ -422,6 +445,13 @@ def gen_c18(rnd, n, thorough=False):
         k = len(layout)
         m, xff = rnd.pick(METHODS), rnd.pick(XFF_VALID)
         lines = fill_ops(rnd, 's/a.wsp', layout, m, xff, density=rnd.pick([0.2, 0.7, 1.0]))
+        future = rnd.chance(0.3)
+        if future:
+            # points dated after the clock (the batch API stores them, one lap ahead): view shows the
+            # slot of the window's time as empty, view-raw shows the point under its own time
+            S0, N0 = layout[0]
+            fp = [("@+%d" % (rnd.randint(1, N0 - 1) * S0), cvalue(rnd, False)) for _ in range(rnd.randint(1, 4))]
+            lines = lines[:-2] + ["many s/a.wsp 0 @ %d %s" % (len(fp), " ".join("%s %016x" % tv for tv in fp))] + lines[-2:]
         for _ in range(rnd.randint(2, 5)):
             wk, frm, until = window(rnd, layout)
             arch = rnd.pick([-1, -1] + list(range(k)) + [k, -2])
@@ -443,7 +473,7 @@ def gen_c20(rnd, n, thorough=False):
         layout = rnd.pick(lay)
         m, xff = rnd.pick(METHODS), rnd.pick([0, 0x3f000000, 0x3f800000])
         fill = rnd.pick([1, 1, 1, 0])
-        mx = rnd.pick([0, 1, 10, 1000])
+        mx = rnd.pick([0, 1, 10, 1000, 1000, -1, -100])        # a negative bound cannot be used: an error, no file
         lines = []
         if c % 3 == 1:
             # the generator and the per-archive write at an explicit generation instant: aligned or
@@ -455,6 +485,7 @@ def gen_c20(rnd, n, thorough=False):
             top = layout[-1][0]
             base = rnd.pick([1700000000, 1700000000, 2 ** 31 - 40, 2 ** 31 + 1000, 2 ** 31 + 10 ** 8, 3 * 10 ** 9])
             now = base + rnd.pick([0, rnd.randrange(top), top - 1 - base % top, rnd.randrange(10 ** 5)])
+            mx = abs(mx)          # (the hooks call the generator below the command's own check of the bound)
             lines.append("cligenat dest=g/x.wsp m=%d x=%08x layout=%s max=%d seed=%d now=%d" % (m, xff, lay_csv(layout), mx, rnd.randint(1, 10 ** 6), now))
             lines.append("hdrof g/x.wsp")
             for a, (S, N) in enumerate(layout):
@@ -593,10 +624,17 @@ def gen_c16(rnd, n, thorough=False):
         dense = lname == 'big'
         lines = fill_ops(rnd, 's/i1/a.wsp', layout, m, xff, density=1.0 if dense else 0.5, inconsistent=not dense)
         lines += fill_ops(rnd, 's/i1/b.wsp', layout, m, xff, density=0.5, inconsistent=False)
-        srckind = rnd.pick(['ok', 'ok', 'ok', 'missing', 'corrupt'])
-        src = {'ok': 'i1/a.wsp', 'missing': 'i1/none.wsp', 'corrupt': 'i1/zero.wsp'}[srckind]
+        srckind = rnd.pick(['ok', 'ok', 'ok', 'missing', 'corrupt', 'corrupt_count'])
+        src = {'ok': 'i1/a.wsp', 'missing': 'i1/none.wsp', 'corrupt': 'i1/zero.wsp', 'corrupt_count': 'i1/zero.wsp'}[srckind]
         if srckind == 'corrupt':
             lines += ["create s/i1/zero.wsp %s m %d x %08x" % (fmt_layout(layout), m, xff), "drop s/i1/zero.wsp"]
+        if srckind == 'corrupt_count':
+            # a damaged file announcing more archives than fit one memory page, and long enough to hold them
+            from gens_codec import be32, hx
+            cnt = rnd.pick([341, 342, 400, 1365, 1366, 5462, 340])
+            lines += ["rawfile s/i1/zero.wsp %s" % hx(be32(m) + be32(rnd.getrandbits(31)) + be32(xff) + be32(cnt) + bytes(12 * cnt + rnd.pick([0, 100])))]
+            srckind = 'corrupt'
+
         destkind = rnd.pick(['missing', 'fresh', 'filled', 'mismatch'])
         if destkind == 'fresh':
             lines += ["create d/a.wsp %s m %d x %08x" % (fmt_layout(layout), m, xff), "sync d/a.wsp", "drop d/a.wsp"]
@@ -662,7 +700,7 @@ def gen_c16(rnd, n, thorough=False):
             else:
                 gname = 'g/x%d.wsp' % len(lines)
                 glay = [(1, 6), (3, 4)] if to != 'full' else [(1, 300), (5, 100)]
-                lines.append("cligenerate dest=%s m=%d x=%08x layout=%s max=10 fill=1%s" % (gname, m, xff, lay_csv(glay), t))
+                lines.append("cligenerate dest=%s m=%d x=%08x layout=%s max=%d fill=%d%s" % (gname, m, xff, lay_csv(glay), rnd.pick([10, 10, 10, 0, -1, -7]), 1 if to == 'full' else rnd.pick([1, 1, 0]), t))
                 lines.append("hdrof %s" % gname)
         cases.append({'id': 'c16-%d' % c, 'lines': lines, 'tags': {'layout': lname, 'src': srckind, 'dest': destkind, 'sub': hist}})
         if c == 1:
